@@ -239,7 +239,7 @@ pub trait Prop: Sync {
     /// Longest time one case may take before the worker is considered hung (seconds). The case is then
     /// re-run alone in a child with twice this budget before anything is reported.
     fn case_timeout_s(&self, _tier: Tier) -> u64 {
-        120
+        300
     }
     /// Signature for a case that crashed the process or hung; `base` is "hang" or
     /// "crash:stack-overflow|sigsegv|abort|other". Properties refine it from the case.
